@@ -789,25 +789,46 @@ def single_defs(fnode):
     return defs
 
 
+_SDEF_CACHE = {}
+
+
+def single_defs_cached(fnode):
+    key = id(fnode)
+    hit = _SDEF_CACHE.get(key)
+    if hit is None or hit[0] is not fnode:
+        if len(_SDEF_CACHE) > 4000:
+            _SDEF_CACHE.clear()
+        hit = (fnode, single_defs(fnode))
+        _SDEF_CACHE[key] = hit
+    return hit[1]
+
+
+def _fresh(expr):
+    """A parent-less copy of an expression (deep-copying a node would drag the whole module
+    along through its _parent link)."""
+    return ast.parse(unparse(expr), mode="eval").body
+
+
 def subst_locals(fnode, expr, depth=6):
     """`expr` with straight-line, single-assignment locals of `fnode` replaced by their
     defining expressions (so `x = f(a); return len(x) > 0` reads `len(f(a)) > 0`)."""
-    defs = single_defs(fnode)
-    if not defs:
+    defs = single_defs_cached(fnode)
+    if not defs or not any(isinstance(x, ast.Name) and x.id in defs and isinstance(x.ctx, ast.Load)
+                           for x in ast.walk(expr)):
         return expr
 
     class T(ast.NodeTransformer):
         def visit_Name(self, n):
             if isinstance(n.ctx, ast.Load) and n.id in defs:
-                return copy.deepcopy(defs[n.id])
+                return _fresh(defs[n.id])
             return n
 
-    out = expr
+    out = _fresh(expr)
     for _ in range(depth):
         if not any(isinstance(x, ast.Name) and x.id in defs and isinstance(x.ctx, ast.Load)
                    for x in ast.walk(out)):
             break
-        out = T().visit(copy.deepcopy(out))
+        out = T().visit(out)
     return out
 
 
